@@ -34,7 +34,7 @@ def model(chk: Check, tier: str):
     chk.add(states=r.distinct, transitions=r.generated)
 
 
-def encode_decode(fmt: str, msg, q: int, enc=None, dec=None):
+def encode_decode(fmt: str, msg, q: int, enc=None, dec=None, as_buffer=False):
     """fresh encoder / decoder per message unless a long-lived pair is handed in (history pass)"""
     from nmea2000.decoder import NMEA2000Decoder
     from nmea2000.encoder import NMEA2000Encoder
@@ -58,10 +58,10 @@ def encode_decode(fmt: str, msg, q: int, enc=None, dec=None):
     try:
         for p in pk:
             if fmt == "ebyte":
-                out = dec.decode_tcp(p)
+                out = dec.decode_tcp(bytearray(p) if as_buffer else p)
                 rec["tokens"].append([])
             elif fmt == "usb":
-                out = dec.decode_usb(p)
+                out = dec.decode_usb(bytearray(p) if as_buffer else p)      # (the serial client hands over slices of its buffer)
                 rec["tokens"].append([])
             elif fmt == "yd":
                 rec["tokens"].append([int(t, 16) for t in p.decode().split()])
@@ -134,11 +134,13 @@ def bind(chk: Check, tier: str, seed: int):
     import copy
     hist = [x for x in picked if ((x[0]["pgn"] >> 8) & 0xFF) < 240][:{"quick": 40, "thorough": 200, "selftest": 8}[tier]] \
         + [x for x in picked if ((x[0]["pgn"] >> 8) & 0xFF) >= 240][:{"quick": 40, "thorough": 200, "selftest": 8}[tier]]
-    for fmt in ("ebyte", "usb", "yd", "actisense"):
+    from nmea2000.decoder import NMEA2000Decoder
+    # (second round: the receiving decoder also writes a dump file, as a client started with a dump option does, and gets the
+    #  binary packets as mutable buffers)
+    for fmt, dumping in [(f, False) for f in ("ebyte", "usb", "yd", "actisense")] + [(f, True) for f in ("ebyte", "usb", "yd", "actisense")]:
         enc = NMEA2000Encoder()
-        from nmea2000.decoder import NMEA2000Decoder
-        dec = NMEA2000Decoder()
-        for m, d, msg in hist:
+        dec = NMEA2000Decoder(dump_to_file=str(wd / f"dump-{fmt}.jsonl")) if dumping else NMEA2000Decoder()
+        for m, d, msg in (hist[::3] if dumping else hist):
             pdu1 = ((m["pgn"] >> 8) & 0xFF) < 240
             base = (m["src"], m["dst"], m["prio"])
             variants = [base, (m["src"], 36 if pdu1 else 255, m["prio"]), (m["src"], 255, m["prio"]), base,
@@ -151,7 +153,7 @@ def bind(chk: Check, tier: str, seed: int):
                     m2["payload"] = list(payload_of_actisense(NMEA2000Encoder().encode_actisense(msg2)))
                 except Exception:          # noqa: BLE001
                     continue
-                rec, out = encode_decode(fmt, msg2, m2["q"], enc, dec)
+                rec, out = encode_decode(fmt, msg2, m2["q"], enc, dec, as_buffer=dumping)
                 if rec is None:
                     continue
                 rec["m"] = m2
@@ -160,6 +162,7 @@ def bind(chk: Check, tier: str, seed: int):
                     rec["backmsg"] = proj(out, by_id.get(out.id), raw_by_id.get(out.id))
                 recs.append(rec)
                 meta.append((d["id"], fmt))
+        dec.close()
     chk.add(history_pass_outputs=len(recs) - n_fresh)
     chk.gate(len(recs) >= (150 if tier == "selftest" else 800), f"only {len(recs)} encoder outputs")
     chk.gate(n_corr >= 2, "no USB packet was available for the corruption sweep")
